@@ -216,6 +216,22 @@ CHECKS = {
                 "record is not quality-filtered in the code.",
         "technique": "Lean 4 proof (filter algebra) + metamorphic differential correspondence through the real stages",
     },
+    "C16": {
+        "text": "Lean model of _load_vcf (get_mut conversion, 20/10 pseudo-read bookkeeping with the literals regenerated, REF-mismatch "
+                "re-expression, per-record multi-substitution merging, skip rules) followed by the table assembly and the Coverage constructor "
+                "rule. Machine-checked: 20 = 2 x 10; alleles of ignored shape are skipped (shape of the skip test regenerated from the source); "
+                "no records => full reference support everywhere; non-diploid/missing genotypes and matching 0/0 records change nothing; a "
+                "single-base change becomes a substitution spelled against the reference base (or the reference marker), left-anchored "
+                "deletions/insertions are anchored after the common prefix, same-length multi-base pairs are an ignored shape. Tie: "
+                "Sample(gene, profile, vcf).coverage on generated bgzip+tabix VCFs (all variant kinds, genotypes, phasing, several samples, odd "
+                "records) == the model. Oracle: support 10 x copies and reference 20 - 10 x copies per catalogued variant, default 20 elsewhere, "
+                "no failed run, heterozygous allele => reference/allele through genotype(). One genuine defect (crash on ignored shapes) was "
+                "repaired by a fix: commit; insertions, multi-nucleotide substitutions and deletion-insertions not becoming support are known findings.",
+        "design_ref": "DESIGN.md section 4 (C16), 5",
+        "note": "Seven known-finding signatures (insertion / MNP one-record / MNP adjacent / delins and their genotype-level consequences). "
+                "Pharmacoscan input not modelled.",
+        "technique": "Lean 4 proof over the record-conversion model + differential correspondence on generated tabix-indexed VCFs",
+    },
 }
 
 NOT_YET = "check not built yet (work in progress; see DESIGN.md section 9 build order)"
